@@ -20,6 +20,12 @@ fn opt_bool(b: Option<bool>) -> &'static str {
 /// The careful caller of the documented API: feed chunk by chunk, prepending the
 /// returned tail and whatever handle() left unread in the reader it was given.
 fn feed(svc: &varlink::VarlinkService, chunks: &[Vec<u8>]) -> String {
+    feed_with(svc, chunks, true)
+}
+
+/// `careful == false`: the reference caller of test.rs and the ping example: every buffer is a transient slice and
+/// only the returned tail is kept for the next call.
+fn feed_with(svc: &varlink::VarlinkService, chunks: &[Vec<u8>], careful: bool) -> String {
     let mut tail: Vec<u8> = Vec::new();
     let mut upg: Option<String> = None;
     let mut out: Vec<u8> = Vec::new();
@@ -33,7 +39,9 @@ fn feed(svc: &varlink::VarlinkService, chunks: &[Vec<u8>]) -> String {
         match svc.handle(&mut rd, &mut out, upg.clone()) {
             Ok((t, u)) => {
                 tail = t;
-                tail.extend_from_slice(rd);
+                if careful {
+                    tail.extend_from_slice(rd);
+                }
                 upg = u;
             }
             Err(e) => {
@@ -232,6 +240,13 @@ fn main() {
                     let svc = spec.build(false);
                     let chunks: Vec<Vec<u8>> = ch.iter().map(|c| unhex(c)).collect();
                     feed(&svc, &chunks)
+                }
+                "feedcap" => {
+                    let (st, ch) = split_bar(rest);
+                    let spec = SvcSpec::parse(&st);
+                    let svc = spec.build(false);
+                    let chunks: Vec<Vec<u8>> = ch.iter().map(|c| unhex(c)).collect();
+                    feed_with(&svc, &chunks, false)
                 }
                 "listen" => {
                     // listen <delay_us> <svc..> | chunks
